@@ -200,6 +200,19 @@ theorem prepare_is_code (row : Mimic.Py.Bytes → Nat) (E : Mimic.Py.Env S) (cp 
       c'.prepared_stmt_seq.size = some maxPreparedStmtId :=
   handle_stmt_prepare_refines row E cp pc c data sql hd hs
 
+/-- **`handle_stmt_execute` leaves the registry the model's `execute` step leaves**, however the execution ends (OK, result
+    set, cursor opened, the application raising, the row source raising in the middle): re-executing discards the previous
+    cursor before the application runs; a cursor is stored iff this is a cursor-opening execution with a result set, and
+    it is the result's own row source; every other statement is untouched.  `parse` (the packet parser, proved in
+    `ExecuteCode`) and `app` (the application) are arbitrary; `hreg`: the parser handed back the registry's object. -/
+theorem execute_is_code (row : Mimic.Py.Bytes → Nat) (coldef : Nat → Nat → Mimic.Py.Bytes)
+    (parse : Connection S → Mimic.Py.Bytes → Option (ComStmtExecute S)) (app : ComStmtExecute S → Option (ResultSet S))
+    (c : Connection S) (data : Mimic.Py.Bytes) (x : ComStmtExecute S) (nxt : Nat) (hp : parse c data = some x)
+    (hreg : Mimic.Py.dictGet c.prepared_stmts x.stmt.stmt_id = some x.stmt) (c' : Connection S)
+    (hrun : handle_stmt_execute coldef parse app c data = .ok c' ∨ handle_stmt_execute coldef parse app c data = .error c') :
+    absStmts row c' = (step ⟨absStmts row c, nxt⟩ (.execute x.stmt.stmt_id x.use_cursor (absResult row (app (cleared x))))).1.stmts :=
+  handle_stmt_execute_registry row coldef parse app c data x nxt hp hreg c' hrun
+
 /-- the id space the model counts in is the code's `Connection._MAX_PREPARED_STMT_ID` (extracted) -/
 theorem stmt_id_space : maxPreparedStmtId = 4294967296 := by decide
 
